@@ -6,8 +6,17 @@ Result: dict(status = pass | fail | inconclusive, reason, failed_checks, covers,
 import fcntl, json, os, re, subprocess, time, shlex
 
 VERIF = os.path.dirname(os.path.dirname(os.path.abspath(__file__)))
-KANI_CRATE = os.path.join(VERIF, "kani")
 BUILD = os.environ.get("VERIF_BUILD_DIR", os.path.join(VERIF, ".build"))
+REPO = os.environ.get("VERIF_REPO", "/repo")      # development aid: run the same checks against a scratch worktree
+KANI_CRATE = os.path.join(VERIF, "kani")
+if REPO != "/repo":
+    # the harness crate has a path dependency on /repo/rust: use a copy that points at the scratch tree instead
+    os.makedirs(BUILD, exist_ok=True)
+    _alt = os.path.join(BUILD, "kani-crate")
+    subprocess.run(["rsync", "-a", "--delete", "--exclude", "target", KANI_CRATE + "/", _alt + "/"], check=True)
+    _ct = open(os.path.join(_alt, "Cargo.toml")).read().replace('path = "/repo/rust"', 'path = "%s/rust"' % REPO)
+    open(os.path.join(_alt, "Cargo.toml"), "w").write(_ct)
+    KANI_CRATE = _alt
 POOL = int(os.environ.get("VERIF_KANI_POOL", "6"))
 LOGS = os.path.join(BUILD, "logs")
 
